@@ -1,6 +1,7 @@
 package rules
 
 import (
+	"go/token"
 	"go/types"
 	"sort"
 	"strings"
@@ -101,4 +102,81 @@ func runConstIndex(p *core.Program, r *core.Report) {
 		})
 	}
 	r.Count(rule+" element accesses on value lists returned by the interpreter", n)
+}
+
+// isEmptyIface: the static type is interface{} / any.
+func isEmptyIface(t types.Type) bool {
+	it, ok := t.Underlying().(*types.Interface)
+	return ok && it.Empty()
+}
+
+// fromConcrete: the interface value was built from a value of a comparable
+// concrete type (MakeInterface of a string, number, pointer, ...), so the
+// comparison cannot meet two uncomparable operands.
+// knownNil: at ins, v is known to be nil - control came over the nil edge of a
+// comparison of v with nil (`case nil:` of a type switch).
+func knownNil(v ssa.Value, ins ssa.Instruction) bool {
+	fn := ins.Parent()
+	for _, b := range fn.Blocks {
+		if len(b.Instrs) == 0 {
+			continue
+		}
+		iff, ok := b.Instrs[len(b.Instrs)-1].(*ssa.If)
+		if !ok {
+			continue
+		}
+		cmp, ok := iff.Cond.(*ssa.BinOp)
+		if !ok || (cmp.Op != token.EQL && cmp.Op != token.NEQ) {
+			continue
+		}
+		var other ssa.Value
+		switch {
+		case isNilConst(cmp.Y):
+			other = cmp.X
+		case isNilConst(cmp.X):
+			other = cmp.Y
+		default:
+			continue
+		}
+		if other != v {
+			continue
+		}
+		e := core.EdgeTo(b, ins.Block())
+		if (cmp.Op == token.EQL && e == 0) || (cmp.Op == token.NEQ && e == 1) {
+			return true
+		}
+	}
+	return false
+}
+
+// recoversPanic: the function defers a closure that calls recover(), so a
+// run-time panic raised in its body does not leave it.
+func recoversPanic(fn *ssa.Function) bool {
+	found := false
+	core.Instrs(fn, func(ins ssa.Instruction) {
+		d, ok := ins.(*ssa.Defer)
+		if !ok {
+			return
+		}
+		cf, ok := closureOf(d.Call.Value)
+		if !ok {
+			return
+		}
+		core.Instrs(cf, func(i2 ssa.Instruction) {
+			if c, ok := i2.(ssa.CallInstruction); ok {
+				if b, ok := c.Common().Value.(*ssa.Builtin); ok && b.Name() == "recover" {
+					found = true
+				}
+			}
+		})
+	})
+	return found
+}
+
+func fromConcrete(v ssa.Value) bool {
+	mi, ok := v.(*ssa.MakeInterface)
+	if !ok {
+		return false
+	}
+	return types.Comparable(mi.X.Type())
 }
